@@ -310,6 +310,16 @@ def z2s_call(prog: Program, rep: Report, rule: str) -> None:
     rep.check(rule, z2s.qual, "z2s -> z2s_kernel(I, J, Z, z_rho)", ok, what_bad=f"kernel must receive the rounded cell indices (I from X, J from Y), the depth and the level depths; got {[vtext(v) for v in a] if a else None}", what_ok="I = round(X), J = round(Y)", loc=z2s.loc())
 
 
+def _scaled(conds) -> bool:
+    """Does this arm belong to packed storage?  (`self.scaled[..]` true, or `not self.scaled[..]` false)"""
+    for t, taken in conds:
+        if "scaled" in t:
+            tt = t.strip()
+            neg = tt.startswith("not ") or tt.startswith("not(")
+            return taken != neg
+    return False
+
+
 def masking(prog: Program, rep: Report, rule: str) -> None:
     fi = prog.role_func("forcing", "_read_velocity")
     dom = NFDomain()
@@ -330,7 +340,7 @@ def masking(prog: Program, rep: Report, rule: str) -> None:
             rep.check(rule, fi.qual, f"{comp} ({cdesc}): multiplied by the land mask {mask.split('.')[-1]}", masked, what_bad=f"returned value {leaf} does not vanish where {mask} is 0: velocity through land faces", what_ok="masked", loc=fi.loc())
             # packing
             sf = [a for a in leaf.atoms() if "scale_factor" in a]
-            scaled_arm = any("scaled" in t and k for t, k in conds)
+            scaled_arm = _scaled(conds)
             if scaled_arm:
                 rep.check("R02.5", fi.qual, f"{comp}: packed storage uses scale_factor[{comp!r}]", sf == [f"forcing.scale_factor['{comp}']"], what_bad=f"scale factor(s) applied: {sf}", what_ok=sf[0] if sf else "", loc=fi.loc())
             else:
@@ -348,7 +358,7 @@ def masking(prog: Program, rep: Report, rule: str) -> None:
     for conds, leaf in arms:
         leaf = it2.num(leaf)
         raw = [a for a in leaf.atoms() if ".variables[" in a]
-        scaled_arm = any("scaled" in t and k for t, k in conds)
+        scaled_arm = _scaled(conds)
         if len(raw) != 1:
             rep.bad("R02.5", ff.qual, "scalar read", f"value built from {raw}", ff.loc())
             continue
